@@ -30,7 +30,8 @@
 (* Part 5  the STREAM as a state machine; invariants ReadBack,             *)
 (*         CursorExact, TxNormalize, AllConsumed; outputs handed back and  *)
 (*         kept by the caller while other streams are encoded and decoded  *)
-(*         (Keep / Peek / Again).                                          *)
+(*         (Keep / Peek / Again); the objects items are written from and   *)
+(*         read into (New / Mut / ObjIs / ReadInto / Another).             *)
 (***************************************************************************)
 EXTENDS Value
 
@@ -369,7 +370,7 @@ VARIABLES stream,   \* the bytes produced so far
           cursor,   \* bytes consumed by the reader so far
           rd,       \* the items read back: [kind, r]
           shelf,    \* the outputs the encoder handed to its caller earlier and the caller still holds: [stream, items]
-          objs      \* every object the reader handed to its caller so far: [kind, r]
+          objs      \* every object the caller holds in this history (built by itself or handed back by the reader): [kind, r]
 
 vars == <<stream, items, cursor, rd, shelf, objs>>
 
@@ -433,6 +434,54 @@ Again(j, kind, r) == /\ j \in DOMAIN objs
                      /\ kind = objs[j].kind
                      /\ SameRec(r, objs[j].r)
                      /\ UNCHANGED vars
+
+(***************************************************************************)
+(* The objects.  An item is written FROM an object the caller holds and is *)
+(* read INTO an object.  The caller may write an object, change it         *)
+(* (assignment to an exported field, a public setter, a Put on its         *)
+(* attribute / custom-field map) and write the SAME object again, any      *)
+(* number of times: every write stands for the content of THAT moment      *)
+(* (the item appended to `items` is the object's content now; ReadBack     *)
+(* then demands that content back).  A reader may be given an object that  *)
+(* already holds something (an earlier decode, the caller's own values):   *)
+(* afterwards the object is the item that stood in the stream and nothing  *)
+(* else -- a section absent from the stream is absent from the object      *)
+(* (its fields hold their defaults), whatever the object held before.      *)
+(* `objs` = every object the caller holds in this history, built by itself *)
+(* (New) or handed back by the reader (Read), with its content.            *)
+(***************************************************************************)
+\* the caller builds an object of type `kind` with the content w (constructor, then assignments)
+New(kind, w) == /\ objs' = Append(objs, [kind |-> kind, r |-> w])
+                /\ UNCHANGED <<stream, items, cursor, rd, shelf>>
+
+\* the caller changes object j by a mutator that touches the fields fs; its content is w now
+Mut(j, fs, w) == /\ j \in DOMAIN objs
+                 /\ DOMAIN w = DOMAIN objs[j].r
+                 /\ fs \subseteq DOMAIN w
+                 /\ \A g \in DOMAIN w \ fs : SameLeaf(w[g], objs[j].r[g])       \* nothing else moved
+                 /\ objs' = [objs EXCEPT ![j] = [kind |-> objs[j].kind, r |-> w]]
+                 /\ UNCHANGED <<stream, items, cursor, rd, shelf>>
+
+\* the object handed to the writer is object j as it is NOW
+ObjIs(j, kind, w) == /\ j \in DOMAIN objs
+                     /\ kind = objs[j].kind
+                     /\ DOMAIN w = DOMAIN objs[j].r
+                     /\ \A f \in DOMAIN w : SameLeaf(w[f], objs[j].r[f])
+
+\* Read / ToObject called ON object j (the receiver holds whatever it held): it returned with the leaves r
+ReadInto(j, kind, r, cur) ==
+  /\ j \in DOMAIN objs
+  /\ kind = objs[j].kind                    \* a receiver does not change its type
+  /\ Len(rd) < Len(items)
+  /\ rd' = Append(rd, [kind |-> kind, r |-> r])
+  /\ objs' = [objs EXCEPT ![j] = [kind |-> kind, r |-> r]]
+  /\ cursor' = cur
+  /\ UNCHANGED <<stream, items, shelf>>
+
+\* the caller has read the stream at hand to its end and begins another one; it keeps its objects and kept outputs
+Another == /\ items # <<>> /\ Len(rd) = Len(items)
+           /\ stream' = <<>> /\ items' = <<>> /\ cursor' = 0 /\ rd' = <<>>
+           /\ UNCHANGED <<shelf, objs>>
 
 \* every kept output still reads as the items it was handed back for (an invariant of the model; on the real code the
 \* observation is the enabling condition of Peek)
